@@ -21,6 +21,8 @@ import (
 	"fmt"
 	"go/token"
 	"time"
+
+	"golang.org/x/tools/go/ssa"
 )
 
 func fixedNow() time.Time { return time.Unix(1700000000, 0).UTC() }
@@ -56,6 +58,7 @@ func (e *Explorer) resetThreads() {
 	e.locks = map[*value]*lockState{}
 	e.waitGroups = map[*value]int64{}
 	e.tickers = nil
+	e.pools = map[*value][]value{}
 }
 
 // switchTo hands the baton from `from` (the running thread) to `to` and waits
@@ -358,3 +361,37 @@ type tickerState struct {
 }
 
 func (t *gthread) String() string { return fmt.Sprintf("g%d(%s)", t.id, t.why) }
+
+// ---------------------------------------------------------------- sync.Pool
+
+// sync.Pool keeps per-P caches behind runtime hooks. Model: a LIFO free list
+// per pool and path - Get hands back the object Put most recently (what a real
+// pool does on one P without an intervening GC, and the behaviour under which
+// aliasing bugs of recycled buffers show), New() when the list is empty.
+func init() {
+	externals["(*sync.Pool).Put"] = func(fr *frame, args []value) value {
+		e := ex(fr)
+		if x, ok := args[1].(iface); ok && x.t == nil {
+			return nil
+		}
+		p := args[0].(*value)
+		e.pools[p] = append(e.pools[p], args[1])
+		return nil
+	}
+	externals["(*sync.Pool).Get"] = func(fr *frame, args []value) value {
+		e := ex(fr)
+		p := args[0].(*value)
+		if l := e.pools[p]; len(l) > 0 {
+			v := l[len(l)-1]
+			e.pools[p] = l[:len(l)-1]
+			return v
+		}
+		st := (*p).(structure)
+		newFn := st[len(st)-1] // field New is the last one
+		switch f := newFn.(type) {
+		case *closure, *ssa.Function:
+			return call(fr.i, fr, token.NoPos, f, nil)
+		}
+		return iface{}
+	}
+}
